@@ -312,7 +312,176 @@ def c17(tier):
                       assumptions=["extra-data programs write whole records per call"])
 
 
-CHECKS = {"C01": c01, "C02": c02, "C12": c12, "C17": c17}
+def foreign_sources(r):
+    """archives from the independent builder used as raw-copy sources / append bases"""
+    import refzip
+    pay = bytes((i * 7 + 3) & 0xFF for i in range(700))
+    ents = [
+        {"name": b"lzma.bin", "method": 14, "data": pay[:300]},                       # a method the crate cannot decode
+        {"name": b"xz.bin", "method": 95, "data": pay[:77], "system": 0, "eattr": 0x20},
+        {"name": b"dd-sig32.txt", "method": 8, "data": b"data descriptor " * 40, "dd": "sig32"},
+        {"name": b"dd-nosig32.txt", "method": 8, "data": b"no signature " * 30, "dd": "nosig32"},
+        {"name": b"dd64.txt", "method": 0, "data": b"wide descriptor", "dd": "sig64", "lz64": True},
+        {"name": b"forced-z64.bin", "method": 8, "data": pay, "z64": {"usize", "csize", "off"}, "lz64": True},
+        {"name": b"dos-ro.txt", "method": 0, "data": b"ro", "system": 0, "eattr": 0x01},
+        {"name": b"noattr", "method": 12, "data": b"bz " * 100, "eattr": 0},
+        {"name": "ünï.txt".encode(), "utf8": True, "method": 8, "data": b"unicode name", "eattr": (0o100751 << 16)},
+        {"name": b"empty", "method": 0, "data": b"", "date": 0xFFFF, "time": 0xFFFF},
+        {"name": b"caf\x82 \xe1\x9b.txt", "method": 8, "data": b"legacy code page name"},      # CP437, unflagged
+    ]
+    r.shuffle(ents)
+    b, v = refzip.build({"entries": ents, "comment": b"foreign"})
+    return b, v
+
+
+def c14(tier):
+    rep = Report("C14", tier)
+    wd = vlib.workdir("C14", tier)
+    vlib.build_harness()
+    mc_writer(rep, wd, "quick")
+    sd = vlib.seed()
+    g = gen_writer.Gen(sd * 49979687 + 14, tier)
+    n = 100 if tier == "quick" else 4000
+    scs = []
+    for i in range(n):
+        # source 0: an archive from this writer with every method; source 1: independent builder
+        src = [{"op": "New"}]
+        nsrc = g.r.randint(2, 7)
+        for k in range(nsrc):
+            o = g.opts()
+            src.append(dict(o, op="StartFile", name="s%d/%s" % (k, g.r.choice(["a", "é", "b c"]))))
+            src.append({"op": "Write", "data": g.payload(big=(tier == "thorough"))})
+        src.append({"op": "Finish"})
+        fb, fv = foreign_sources(g.r)
+        ops = src + [{"op": "Load", "hex": fb.hex()}, {"op": "New"}]
+        ncopy = 0
+        for _ in range(g.r.randint(1, 7)):
+            c = g.r.random()
+            if c < 0.6:
+                if g.r.random() < 0.5:
+                    ops.append({"op": "RawCopy", "arch": 0, "idx": g.r.randint(0, nsrc - 1),
+                                "rename": None if g.r.random() < 0.5 else g.name()})
+                else:
+                    ops.append({"op": "RawCopy", "arch": 1, "idx": g.r.randint(0, len(fv["entries"]) - 1),
+                                "rename": None if g.r.random() < 0.5 else g.name()})
+                ncopy += 1
+            elif c < 0.85:
+                ops.append(dict(g.opts(enc_ok=True), op="StartFile", name=g.name()))
+                ops.append({"op": "Write", "data": g.payload()})
+            else:
+                ops.append(dict(g.opts(), op="AddDir", name=g.name()))
+        ops.append({"op": "Finish"})
+        sc = {"sc": "rc%05d" % i, "ops": ops}
+        if i % 3 == 1:      # destination (and source) sinks that accept short writes
+            sc["short_w_max"] = g.r.choice([1, 7, 100, 4096, 10000])
+        scs.append(sc)
+    run_writer_programs(rep, wd, scs, "rawcopy", referees=False)
+    return rep.finish("model_checking",
+                      "raw copies (first/middle/last/only, renamed or not) of entries from this writer (every method, random "
+                      "levels, empty to multi-MiB) and from the independent builder (methods the crate cannot decode, the four "
+                      "data-descriptor styles, forced ZIP64 fields, DOS/absent attributes) interleaved with ordinary entries; "
+                      "the spec (RawCopyF, RawVerbatim in LocalMatches/Entry) requires identical raw bytes (CRC of the data "
+                      "region), method, CRC, sizes, time words, low nine permission bits, and unchanged neighbours",
+                      assumptions=["ZIP64-sized sources are exercised under C08"])
+
+
+def cpython_base(r, kind):
+    """an archive written by CPython's zipfile (second independent producer)"""
+    import io
+    import zipfile
+    buf = io.BytesIO()
+
+    class Unseekable(io.RawIOBase):       # forces data descriptors
+        def __init__(self, b):
+            self.b = b
+
+        def writable(self):
+            return True
+
+        def write(self, d):
+            return self.b.write(d)
+
+    tgt = Unseekable(buf) if kind == "dd" else buf
+    with zipfile.ZipFile(tgt, "w") as z:
+        for k in range(r.randint(1, 5)):
+            name = r.choice(["py/a%d.txt" % k, "py/é%d" % k, "d%d/" % k])
+            zi = zipfile.ZipInfo(name, date_time=(1980 + r.randint(0, 100), r.randint(1, 12), r.randint(1, 28), r.randint(0, 23), r.randint(0, 59), 2 * r.randint(0, 29)))
+            zi.compress_type = r.choice([zipfile.ZIP_STORED, zipfile.ZIP_DEFLATED, zipfile.ZIP_BZIP2])
+            zi.external_attr = (r.choice([0o100644, 0o100755, 0o40755]) << 16)
+            if kind == "fcomment":
+                zi.comment = b"file comment %d" % k
+            data = b"" if name.endswith("/") else bytes(r.randrange(256) for _ in range(r.randint(0, 300)))
+            if kind == "z64":
+                with z.open(zi, "w", force_zip64=True) as f:
+                    f.write(data)
+            else:
+                z.writestr(zi, data)
+        if r.random() < 0.5:
+            z.comment = b"cpython archive comment"
+    return buf.getvalue()
+
+
+def c13(tier):
+    rep = Report("C13", tier)
+    wd = vlib.workdir("C13", tier)
+    vlib.build_harness()
+    mc_writer(rep, wd, "quick")
+    import refzip
+    sd = vlib.seed()
+    g = gen_writer.Gen(sd * 86028121 + 13, tier)
+    n = 90 if tier == "quick" else 3000
+    scs = []
+    for i in range(n):
+        kind = ["writer", "writer", "refzip", "refzip-prefix", "refzip-z64", "cpython", "cpython-dd", "cpython-z64",
+                "cpython-fcomment", "empty"][i % 10]
+        ops = []
+        if kind == "writer":
+            s = g.valid_archive("x", nmax=5, enc_ok=False, end="Finish")
+            ops += s["ops"]
+        elif kind == "empty":
+            ops += [{"op": "New"}, {"op": "Finish"}]
+        elif kind.startswith("refzip"):
+            fb, fv = foreign_sources(g.r)
+            if kind == "refzip-prefix":
+                ents = [{"name": b"p/one", "method": 8, "data": b"one " * 30}, {"name": "p/zwei-ü".encode(), "utf8": True, "method": 0, "data": b"2"}]
+                fb, fv = refzip.build({"prefix": bytes(g.r.randrange(1, 255) for _ in range(g.r.choice([1, 100, 65536]))),
+                                       "entries": ents, "comment": b"prefixed"})
+            elif kind == "refzip-z64":
+                ents = [{"name": b"z/one", "method": 8, "data": b"one " * 30, "z64": {"usize", "csize"}, "lz64": True},
+                        {"name": b"z/two", "method": 0, "data": b"22", "z64": {"off"}}]
+                fb, fv = refzip.build({"entries": ents, "z64end": True, "comment": b"forced zip64"})
+            ops.append({"op": "Load", "hex": fb.hex()})
+        else:
+            ops.append({"op": "Load", "hex": cpython_base(g.r, {"cpython": "plain", "cpython-dd": "dd", "cpython-z64": "z64",
+                                                                 "cpython-fcomment": "fcomment"}[kind]).hex()})
+        rounds = g.r.randint(1, 3)
+        for rd in range(rounds):
+            ops.append({"op": "NewAppend", "arch": rd})
+            if g.r.random() < 0.25:
+                ops.append({"op": "SetComment", "c": g.comment()})
+            for _ in range(g.r.choice([0, 1, 1, 2, 3])):
+                c = g.r.random()
+                if c < 0.7:
+                    ops.append(dict(g.opts(), op="StartFile", name="r%d/%s" % (rd, g.name())))
+                    ops.append({"op": "Write", "data": g.payload()})
+                elif c < 0.85:
+                    ops.append(dict(g.opts(), op="AddDir", name="r%d/d" % rd))
+                else:
+                    ops.append(dict(g.opts(methods=[0, 8]), op="StartFileAligned", name="r%d/al" % rd, align=g.r.choice([4, 64, 4096])))
+                    ops.append({"op": "Write", "data": g.payload()})
+            ops.append({"op": g.r.choice(["Finish", "Finish", "Finish", "Drop"])})
+        scs.append({"sc": "ap%05d-%s" % (i, kind), "ops": ops})
+    run_writer_programs(rep, wd, scs, "append", referees=False)
+    return rep.finish("model_checking",
+                      "histories base -> (append k entries)* with 1..3 rounds over bases from this writer, the independent "
+                      "builder (plain, 1 B..64 KiB prefix, forced ZIP64 records, data descriptors, unknown methods) and CPython "
+                      "zipfile (plain, data descriptors, force_zip64, file comments); after every round the bytes are lexed and "
+                      "judged, reopened, and every old entry's metadata, raw data CRC and decoded content compared with the "
+                      "specification's NewAppendF/ClosedEntriesImmutable expectation; MC_Writer checks ClosedEntriesImmutable",
+                      assumptions=["bases are unencrypted, as the property states"])
+
+
+CHECKS = {"C13": c13, "C14": c14, "C01": c01, "C02": c02, "C12": c12, "C17": c17}
 
 
 def setup():
